@@ -6,8 +6,8 @@
 EXTENDS MatryerMockContract, TLC, Json
 
 Trace == ndJsonDeserialize("trace.ndjson")
-VARIABLES tsig, topt, ttypes, tfunc, tlog, tby, tsnaps, l
-tvars == <<tsig, topt, ttypes, tfunc, tlog, tby, tsnaps, l>>
+VARIABLES tsig, topt, ttypes, tfunc, tlog, tby, tsnaps, txlog, l
+tvars == <<tsig, topt, ttypes, tfunc, tlog, tby, tsnaps, txlog, l>>
 
 Ev == Trace[l]
 
@@ -18,6 +18,7 @@ TraceInit == /\ tsig = [m \in Methods |-> [ar |-> 0, var |-> FALSE, nres |-> 0]]
              /\ tlog = [m \in Methods |-> << >>]
              /\ tby = [m \in Methods |-> << >>]
              /\ tsnaps = << >>
+             /\ txlog = << >>
              /\ l = 1
 
 Reset == /\ l <= Len(Trace) /\ Ev.op = "reset"
@@ -25,12 +26,14 @@ Reset == /\ l <= Len(Trace) /\ Ev.op = "reset"
          /\ tlog' = [m \in Methods |-> << >>]
          /\ tby' = Ev.by                    \* what the bystander instance holds before the history starts
          /\ tsnaps' = << >>
+         /\ txlog' = Ev.xlog                 \* what the third method recorded before the history starts
          /\ l' = l + 1
 
 Step == /\ l <= Len(Trace) /\ Ev.op # "reset"
-        /\ StepOK(tsig, topt, ttypes, tfunc, tlog, tby, tsnaps, Ev)
+        /\ StepOK(tsig, topt, ttypes, tfunc, tlog, tby, tsnaps, txlog, Ev)
         /\ tfunc' = FuncsAfter(tfunc, Ev)
         /\ tlog' = Ev.logs
+        /\ txlog' = Ev.xlog
         /\ tsnaps' = SnapsAfter(tsnaps, tlog, Ev)      \* same retention rule as the driver, on the OBSERVED logs
         /\ l' = l + 1
         /\ UNCHANGED <<tsig, topt, ttypes, tby>>
@@ -41,11 +44,11 @@ NextReset(i) == IF \E j \in (i + 1)..Len(Trace) : Trace[j].op = "reset"
                 THEN CHOOSE j \in (i + 1)..Len(Trace) : Trace[j].op = "reset" /\ \A k \in (i + 1)..(j - 1) : Trace[k].op # "reset"
                 ELSE Len(Trace) + 1
 Reject == /\ l <= Len(Trace) /\ Ev.op # "reset"
-          /\ ~StepOK(tsig, topt, ttypes, tfunc, tlog, tby, tsnaps, Ev)
-          /\ PrintT(<<"REJECT", Ev.case, l, FailedClause(tsig, topt, ttypes, tfunc, tlog, tby, tsnaps, Ev)>>)
+          /\ ~StepOK(tsig, topt, ttypes, tfunc, tlog, tby, tsnaps, txlog, Ev)
+          /\ PrintT(<<"REJECT", Ev.case, l, FailedClause(tsig, topt, ttypes, tfunc, tlog, tby, tsnaps, txlog, Ev)>>)
           /\ TLCSet(2, TLCGet(2) + 1)
           /\ l' = NextReset(l)
-          /\ UNCHANGED <<tsig, topt, ttypes, tfunc, tlog, tby, tsnaps>>
+          /\ UNCHANGED <<tsig, topt, ttypes, tfunc, tlog, tby, tsnaps, txlog>>
 
 TraceNext == (Reset \/ Step \/ Reject) /\ TLCSet(1, l')
 TraceSpec == TraceInit /\ TLCSet(1, 1) /\ TLCSet(2, 0) /\ [][TraceNext]_tvars
